@@ -489,6 +489,7 @@ var specC04 = vstat.Spec[c04Case]{
 	Gen:      genC04,
 	Check:    checkC04,
 	Inflight: true,
+	Confirm:  true,
 }
 
 func TestC04(t *testing.T)       { vstat.Check(t, specC04) }
@@ -650,6 +651,7 @@ var specC07d = vstat.Spec[c07dCase]{
 	Gen:      genC07d,
 	Check:    checkC07d,
 	Inflight: true,
+	Confirm:  true,
 }
 
 func TestC07Dispatch(t *testing.T)       { vstat.Check(t, specC07d) }
